@@ -151,7 +151,8 @@ pub fn structured_y(t: usize, base: &Mat, n: usize, p: usize, seed: u64) -> Vec<
 
 /// Everything the oracle derives from X alone.
 pub struct XInfo {
-    pub key: Vec<u64>,
+    /// X before rounding to the working type (cache key together with `w`)
+    pub x_raw: Mat,
     pub w: W,
     pub n: usize,
     pub p: usize,
@@ -193,27 +194,15 @@ fn cond_of(s: &[f64]) -> f64 {
     }
 }
 
-fn bits_key(x: &Mat, w: W) -> Vec<u64> {
-    let mut k = Vec::with_capacity(x.len() * x.first().map(|r| r.len()).unwrap_or(0) + 2);
-    k.push(x.len() as u64);
-    k.push(if w == W::F64 { 64 } else { 32 });
-    for r in x {
-        for v in r {
-            k.push(v.to_bits());
-        }
-    }
-    k
-}
-
 thread_local! {
     static CACHE: RefCell<Option<Rc<XInfo>>> = RefCell::new(None);
 }
 
-/// `exact_ranks`: (rank X == p, rank [X 1] == p+1) when known exactly (lattice); otherwise decided
-/// from the reference singular values (structured designs).
-pub fn xinfo(x_raw: &Mat, w: W, exact_ranks: Option<(bool, bool)>) -> Rc<XInfo> {
-    let key = bits_key(x_raw, w);
-    if let Some(c) = CACHE.with(|c| c.borrow().as_ref().filter(|c| c.key == key).cloned()) {
+/// `exact_ranks`: computes (rank X == p, rank [X 1] == p+1) exactly (lattice); when None the ranks
+/// are decided from the reference singular values (structured designs). The result is cached per
+/// thread for the most recent (X, width): the explorer varies y and the configuration fastest.
+pub fn xinfo(x_raw: &Mat, w: W, exact_ranks: Option<&dyn Fn() -> (bool, bool)>) -> Rc<XInfo> {
+    if let Some(c) = CACHE.with(|c| c.borrow().as_ref().filter(|c| c.w == w && c.x_raw == *x_raw).cloned()) {
         return c;
     }
     let n = x_raw.len();
@@ -250,7 +239,7 @@ pub fn xinfo(x_raw: &Mat, w: W, exact_ranks: Option<(bool, bool)>) -> Rc<XInfo> 
         (None, Vec::new(), f64::INFINITY)
     };
     let (x_full_rank, a_full_rank) = match exact_ranks {
-        Some(r) => r,
+        Some(f) => f(),
         // numerically: finite condition number (the in-domain decision additionally applies the limit)
         None => (cond_of(&sv_x) < 1e15, cond_of(&sv_a) < 1e15),
     };
@@ -258,7 +247,7 @@ pub fn xinfo(x_raw: &Mat, w: W, exact_ranks: Option<(bool, bool)>) -> Rc<XInfo> 
     let probe: Mat = (0..mp)
         .map(|r| (0..p).map(|c| if (r + c) % 2 == 0 { 1.0 } else { -1.0 } * (1 + 16 * r + c) as f64 / 4.0).collect())
         .collect();
-    let xi = Rc::new(XInfo { key, w, n, p, x, x_full_rank, a_full_rank, sv_x, sv_a, x_fro, a_fro, mu, sd, z, sv_z, kappa_s, probe });
+    let xi = Rc::new(XInfo { x_raw: x_raw.clone(), w, n, p, x, x_full_rank, a_full_rank, sv_x, sv_a, x_fro, a_fro, mu, sd, z, sv_z, kappa_s, probe });
     CACHE.with(|c| *c.borrow_mut() = Some(xi.clone()));
     xi
 }
